@@ -88,6 +88,10 @@ EXPLANATION += (
     ' Round 16: a merge over several files stores entries only for the keys of the current file (R-COVER/merge-keeps-earlier).'
 )
 
+EXPLANATION += (
+    ' Round 17: the reconciliation tests the presence of marker groups only (R-AGREE/reconcile-by-presence).'
+)
+
 RULE_TEXT = (
     "one obligation per (file kind, reader, required dataset), per "
     "provenance relation; non-trivial when the reader requires at least "
